@@ -359,7 +359,7 @@ def g_ext_crop_roundtrip():
     return obs, {}
 
 
-def g_level1_closed_form():
+def g_level1_closed_form(canary=False):
     """level 1, one axis, symmetric odd filters h (analysis) and g (synthesis), image at least as long as the filters:
        colfilter(colfilter(x, h), g)[i] == sum_{t,s} h[t] g[s] x_ext[i + (mh//2 - t) + (mg//2 - s)]
     (filtering with a symmetric filter commutes with the symmetric extension).  With the TABLE identity
@@ -379,7 +379,7 @@ def g_level1_closed_form():
     def elem(idx):
         n_, c_, i, j = idx
         return bk.sum(0, mhh, lambda t: bk.sum(0, mgg, lambda s: hs_([0, 0, simp(mhh - 1 - I(t)), 0]) * gs__([0, 0, simp(mgg - 1 - I(s)), 0]) *
-                                              xs([n_, c_, prims.EXT_SYM(I(i) + (mhh - 1) / 2 - I(t) + (mgg - 1) / 2 - I(s), I(H)), j])))
+                                              xs([n_, c_, prims.EXT_SYM(I(i) + (mhh - 1) / 2 - I(t) + (mgg - 1) / 2 - I(s) + (1 if canary else 0), I(H)), j])))
     cf = fresh_like(x.shape, elem, x)
     return verify.value_equal('LEMMA/level1-closed-form(symmetric filters commute with symmetric extension)', 'LEMMA', y, cf, c.pc,
                               SIZES + [mhh, mgg]), {}
